@@ -392,4 +392,3 @@ func shiftCounts(w int, kb *Kind) []Val {
 	}
 	return out
 }
-
